@@ -277,6 +277,16 @@ func TestVerifDriver(t *testing.T) {
 		for i := 0; i < nh; i++ {
 			runC16Hist(em, r, i)
 		}
+	case "C15":
+		n := 200
+		if vThorough() {
+			n = 5000
+		}
+		for i := 0; i < n; i++ {
+			runRandomHist(em, r, i, vHistOpts{prop: "C15", plant: true})
+		}
+	case "C03":
+		runC03(em, r)
 	case "C14":
 		n := 250
 		if vThorough() {
